@@ -68,7 +68,8 @@ def check(cx):
     ]
     ck.does_not_decide += ['that a concrete later JOIN/PRIVMSG observes the change (follows from R8.7 + C07/C10 on the same fields)']
     prog = cx.prog
-    check_rank_predicates(cx, cx.rule('R8.3', 'rank predicate bodies', floor=5, kind='equivalence'))
+    check_rank_predicates(cx, cx.rule('R8.3', 'rank predicate bodies used by channel MODE', floor=3, kind='equivalence'),
+                          names=('is_protected', 'is_operator', 'is_half_operator'))
 
     # ---------------------------------------------------------------- R8.1 call site
     r1 = cx.rule('R8.1', 'membership gate of channel MODE', floor=3, kind='required-guard')
